@@ -450,7 +450,8 @@ SIGS = {k: v for k, v in globals().items() if callable(v) and not k.startswith("
 
 def match(findings, case):
     """findings: common.Finding list (kind == 'finding').  Returns the first whose site and predicate match."""
-    for f in findings:
+    # lower prio= first (default 5): a predicate about a whole compound statement is tried before one about its parts
+    for f in sorted(findings, key=lambda f: int(f.fields.get("prio", "5"))):
         if f.kind != "finding" or f.fields.get("site") != case["site"]:
             continue
         pred = SIGS.get(f.fields.get("sig", ""))
